@@ -40,13 +40,24 @@ STATUS = {"http_exc": {403}, "exc": {500}, "timeout": {504}, "non_response": {50
 FAILS_AFTER_HEAD = ("partial_raise", "partial_timeout", "partial_http_exc", "prepared_raise", "prepared_timeout", "prepared_http_exc")
 
 
+BAIT = b"GET /smuggled HTTP/1.1\r\nHost: a\r\nX-Id: 999\r\n\r\n"
+
+
+def _truncated_deflate_request() -> bytes:
+    import zlib
+
+    comp = zlib.compress(b"payload " * 40)[:-9]  # cut before the final block ends: complete by Content-Length, undecodable
+    return b"POST /coded HTTP/1.1\r\nHost: a\r\nContent-Encoding: deflate\r\nContent-Length: %d\r\n\r\n" % len(comp) + comp
+
+
 def build_request(i: int, r: dict) -> bytes:
     head = f"{r.get('method', 'POST')} /p{i} HTTP/1.1\r\nHost: a\r\nX-Id: {i}\r\n"
     if r.get("pad"):
         head += "X-Pad: " + "p" * r["pad"] + "\r\n"
     bk = r.get("body", "none")
     n = r.get("n", 0)
-    data = bytes((i + k) & 0x7F | 0x20 for k in range(n))
+    # body bytes that would read as a request of their own if the framing were ever lost
+    data = (BAIT * (n // len(BAIT) + 1))[:n]
     if r.get("upgrade") and bk != "none":
         # an upgrade offer on a request with a body (declined by the handler): the body still belongs to this request
         head += "Upgrade: websocket\r\nConnection: upgrade\r\n"
@@ -106,6 +117,8 @@ BAD_ELEMENTS = [
     b"G\xc3\xa9T / HTTP/1.1\r\nHost: a\r\n\r\n",
     b"GET / HTTP/1.1\r\nH\xffst: a\r\n\r\n",
     b"POST / HTTP/1.1\r\nHost: a\r\nTransfer-Encoding: chunked\r\n\r\n0\r\n" + b"T: v\r\n" * 200 + b"\r\n",
+    _truncated_deflate_request(),
+    _truncated_deflate_request() + b"POST /next HTTP/1.1\r\nHost: a\r\nContent-Length: %d\r\n\r\n" % len(BAIT) + BAIT,
     b"OPTIONS * HTTP/1.1\r\nHost: a\r\n\r\n",
     b"GET * HTTP/1.1\r\nHost: a\r\n\r\n",
     b"CONNECT a:80 HTTP/1.1\r\nHost: a\r\n\r\n",
@@ -131,6 +144,8 @@ def execute(case: dict) -> dict:
             except ValueError:
                 i = -1
             handled.append(i)
+            if request.path == "/smuggled":
+                stats["smuggled"] = f"{request.method} {request.path_qs} (X-Id {i})"
             if len(handled) > 3 * len(reqs) + 40 and not stats.get("runaway"):
                 # far more handler calls than requests on the wire: something is replayed; stop it here, judged below
                 stats["runaway"] = len(handled)
@@ -222,6 +237,9 @@ def execute(case: dict) -> dict:
             cap = None
 
         def sample() -> None:
+            if stats.get("smuggled"):
+                raise Violation("body-bytes-handled-as-request", f"the handler was called for {stats['smuggled']}: those bytes are the body of a request on the wire, "
+                                f"nobody sent them as a request")
             if stats.get("runaway"):
                 raise Violation("request-handled-repeatedly", f"the handler was called {stats['runaway']} times for {len(reqs)} request(s) on the wire (last ids {handled[-5:]}): a request is being replayed")
             q = getattr(proto, "_messages", None)
